@@ -62,14 +62,31 @@ func (d Delay) run() {
 	}
 }
 
+// CliLists is the argument-layer form of a lock map (kinds "cli-*", c15cli.go): the raw
+// entries of pip:run's --rlock and --wlock lists. When Cli is set the holder's map is
+// derived from the lists (a name asked for write if it occurs in WLock at all) and Locks is
+// ignored.
+type CliLists struct {
+	Cli   bool     `json:"cli,omitempty"`
+	RLock []string `json:"rlock,omitempty"`
+	WLock []string `json:"wlock,omitempty"`
+}
+
+// holdSpec is what a backend gets to take a holder's locks.
+type holdSpec struct {
+	m   commservices.LockMap
+	cli CliLists
+}
+
 // Holder is one free-running holder: it waits Start, then for every element of Holds takes
 // its lock map, stays inside for that delay, unlocks and waits Gap.
 type Holder struct {
 	Locks  []LockEnt `json:"locks"`
 	NilMap bool      `json:"nil,omitempty"` // pass a nil LockMap (only when Locks is empty)
-	Start  Delay     `json:"start"`
-	Holds  []Delay   `json:"holds"`
-	Gap    Delay     `json:"gap"`
+	CliLists
+	Start Delay   `json:"start"`
+	Holds []Delay `json:"holds"`
+	Gap   Delay   `json:"gap"`
 }
 
 // Case is the "holders" kind.
@@ -167,6 +184,13 @@ func lockMap(names []string, locks []LockEnt, nilMap bool) (commservices.LockMap
 		m[names[e.R]] = e.W
 	}
 	return m, nil
+}
+
+func holderMap(names []string, locks []LockEnt, nilMap bool, cli CliLists) (commservices.LockMap, error) {
+	if cli.Cli {
+		return cliModelMap(cli)
+	}
+	return lockMap(names, locks, nilMap)
 }
 
 func validNames(names []string) error {
@@ -290,7 +314,7 @@ type backend interface {
 	// hold acquires m, calls section while holding, releases, and returns after the release.
 	// ran=false means the backend could not even bring the holder to its section for a
 	// reason that has nothing to do with the lock (harness/bootstrap problem).
-	hold(id string, m commservices.LockMap, section func()) (ran bool, err error)
+	hold(id string, sp holdSpec, section func()) (ran bool, err error)
 	// prewarm makes every per-name mutex exist before the holders start.
 	prewarm(names []string)
 	close()
@@ -302,8 +326,8 @@ func newDirect() (backend, error) {
 	return &directBackend{sm: commservices.SharedMutex(mutex.NewSharedMutex())}, nil
 }
 
-func (d *directBackend) hold(id string, m commservices.LockMap, section func()) (bool, error) {
-	uh := d.sm.Lock(m)
+func (d *directBackend) hold(id string, sp holdSpec, section func()) (bool, error) {
+	uh := d.sm.Lock(sp.m)
 	section()
 	uh.Unlock()
 	return true, nil
@@ -360,7 +384,7 @@ func runHolders(c Case, mk func() (backend, error)) hx.Verdict {
 	}
 	maps := make([]commservices.LockMap, len(c.Holders))
 	for i, h := range c.Holders {
-		m, err := lockMap(c.Names, h.Locks, h.NilMap)
+		m, err := holderMap(c.Names, h.Locks, h.NilMap, h.CliLists)
 		if err != nil {
 			return hx.Fail("bad-case", "holder %d: %v", i, err)
 		}
@@ -398,7 +422,7 @@ func runHolders(c Case, mk func() (backend, error)) hx.Verdict {
 				for r, hold := range h.Holds {
 					sp := &spans[i][r]
 					sp.att.Store(seq.Add(1))
-					ran, err := be.hold(fmt.Sprintf("h%dr%d", i, r), maps[i], func() {
+					ran, err := be.hold(fmt.Sprintf("h%dr%d", i, r), holdSpec{m: maps[i], cli: c.Holders[i].CliLists}, func() {
 						sp.enter.Store(seq.Add(1))
 						hold.run()
 						sp.exit.Store(seq.Add(1))
@@ -515,6 +539,7 @@ type GStep struct {
 type GHolder struct {
 	Locks  []LockEnt `json:"locks"`
 	NilMap bool      `json:"nil,omitempty"`
+	CliLists
 }
 
 // GCase is the "gated" kind.
@@ -619,6 +644,7 @@ func ExecGated(c GCase) hx.Verdict {
 
 type gholder struct {
 	m        commservices.LockMap
+	cli      CliLists
 	sp       span
 	gate     chan struct{} // closed by the harness: leave the section
 	acquired chan struct{} // closed by the holder right after Lock returned
@@ -636,12 +662,12 @@ func runGated(c GCase, mk func() (backend, error)) hx.Verdict {
 	hs := make([]*gholder, len(c.Holders))
 	maps := make([]commservices.LockMap, len(c.Holders))
 	for i, h := range c.Holders {
-		m, err := lockMap(c.Names, h.Locks, h.NilMap)
+		m, err := holderMap(c.Names, h.Locks, h.NilMap, h.CliLists)
 		if err != nil {
 			return hx.Fail("bad-case", "holder %d: %v", i, err)
 		}
 		maps[i] = m
-		hs[i] = &gholder{m: m, gate: make(chan struct{}), acquired: make(chan struct{}), done: make(chan struct{})}
+		hs[i] = &gholder{m: m, cli: h.CliLists, gate: make(chan struct{}), acquired: make(chan struct{}), done: make(chan struct{})}
 	}
 	for si, s := range c.Steps {
 		if (s.Op == "start" || s.Op == "release") && (s.H < 0 || s.H >= len(hs)) {
@@ -744,7 +770,7 @@ func runGated(c GCase, mk func() (backend, error)) hx.Verdict {
 			h.started = true
 			go func(id string) {
 				h.sp.att.Store(seq.Add(1))
-				ran, err := be.hold(id, h.m, func() {
+				ran, err := be.hold(id, holdSpec{m: h.m, cli: h.cli}, func() {
 					h.sp.enter.Store(seq.Add(1))
 					close(h.acquired)
 					<-h.gate
